@@ -79,7 +79,7 @@ def judge(doc, nd, at, drop, cli=False):
     try:
         out = convert_cli(doc, at, drop) if cli else convert_lib(doc, nd, at, drop)
     except ValueError as e:
-        if drop and 'BadElement' in str(e):
+        if drop and re.search(r'BadElement: \S+( |,|$)(?!reuses)', str(e)) and any('reuses id' not in part for part in str(e).split('BadElement:')[1:]):
             return ('with drop_unsupported the call does not fail because of unsupported elements', 'normal return', {'raised': str(e)[:300]})
         return None
     except Exception:
@@ -100,7 +100,7 @@ def search(ctx, broken, disagreements):
         if i % 4 == 1: kw = dict(unsupported=0.08)
         if i % 4 == 2: kw = dict(text=0.1)
         if i % 4 == 3: kw = dict(noise=0.15, shared_ids=True)
-        doc = docgen.random_doc(rng, **kw)
+        doc = docgen.random_doc(rng, **kw) if i % 5 != 4 else docgen.group_soup(rng)
         nd = rng.randint(0, 6) if i % 2 else 3
         at, drop = rng.random() < 0.35, rng.random() < 0.35
         cli = (i % 20 == 7)
